@@ -283,7 +283,7 @@ fn main() {
         let size: u64 = arg(&args, "--size").and_then(|s| s.parse().ok()).unwrap_or(100);
         let max_threads: usize = arg(&args, "--max-threads").and_then(|s| s.parse().ok()).unwrap_or(16);
         let pool = Pool::load(&simcommon::repo_dir(), 6000);
-        let mut g = BatchGen { pool: &pool, memory: vec![], canaries: canaries(seed, &pool) };
+        let mut g = BatchGen { profile: episode_profile(batch), pool: &pool, memory: vec![], canaries: canaries(seed, &pool) };
         (0..size).map(|i| g.gen_run(seed, batch * size + i, max_threads)).collect()
     };
 
